@@ -70,8 +70,8 @@ CHECKS = {
                 text="Run-time half (grid): all chains up to length 2 (thorough 3) of identity-typed conversions on a sized value x 5 terminal conversions, chains up to 3 for slice / str / header+slice / unsized array / RefLock<dyn>, converted weak pointers, upgrade+convert+stash in every collector phase with the handle as the only root, ZstCache<1|8|64> x alignments x entry points: identity, dereference, survival through two cycles, single destruction. Rejection half (probes): every public unsafe fn / unsafe trait used without unsafe, builders' assume_init for uninhabited and private types, safe conjuring attempts.",
                 tech="exhaustive enumeration of conversion chains on the real code + enumeration of conjuring programs with compiler verdict"),
     "C20": dict(engine="explorer", cat="model_checking", ref="5/C20",
-                text="Product exploration of two real arenas with different pacing on one thread (allocation, links, weak pointers, handles, collector steps, dropping either arena): after every operation on one arena the other arena's canonical bookkeeping (incl. colours), drop log, Gc count, debt bits, phase and handles are bit-identical, its own oracles still hold, foreign handles are refused, and C02/C04 probes hold per arena in every product state.",
-                tech="explicit-state BFS over the product of two real arenas, non-interference oracle"),
+                text="Product exploration of two real arenas with different pacing on one thread (allocation, links, weak pointers, handles, collector steps, dropping either arena): after every operation on one arena the other arena's canonical bookkeeping (incl. colours), drop log, Gc count, debt bits, phase and handles are bit-identical, its own oracles still hold, foreign handles are refused (also stale handles meeting recycled addresses after an arena died), and C02/C04 probes hold per arena in every product state. Compile-time half: 57 programs - every brand-preserving conversion applied to a pointer of arena 1 and used with arena 2 under nested callbacks, plus the cross-arena part of the C12 grammar - must be rejected (twins within one arena compile).",
+                tech="explicit-state BFS over the product of two real arenas, non-interference oracle; enumeration of cross-arena programs with compiler verdict"),
 }
 
 NOT_YET = {
